@@ -7,7 +7,7 @@ from suites import run_suite
 import docs
 from docs import Doc, flatten, parse_flat, replace_subtree
 
-LEAN_MODULES = ['GoSnaps.Props.C15', 'GoSnaps.Props.Tie.Flows']
+LEAN_MODULES = ['GoSnaps.Props.C15', 'GoSnaps.Props.Tie.Flows', 'GoSnaps.Props.Tie.Matchers']
 
 
 def set_path(v, fp, newv):
